@@ -30,7 +30,8 @@ Local Open Scope F_scope.
 (* the abstract functions the generated closed forms refer to *)
 Record lenv (K : fld) := LEnv {
   l_ex : K -> K; l_sn : K -> K; l_cs : K -> K; l_fabs : K -> K; l_pi : K;
-  l_isr : K -> bool; l_neg : K -> bool; l_Fn : nat -> K -> K; l_Ic : nat -> nat -> K }.
+  l_isr : K -> bool; l_neg : K -> bool; l_Fn : nat -> K -> K; l_Ic : nat -> nat -> K;
+  l_Fv : nat -> K -> K }.
 
 Section LModel.
 Variable K : fld.
@@ -42,6 +43,7 @@ Variable isr : K -> bool.
 Variable neg : K -> bool.
 Variable Fn : nat -> K -> K.
 Variable Ic : nat -> nat -> K.
+Variable Fv : nat -> K -> K.       (* Fv v x = the value v(x) of the named function number v at the instant x *)
 
 Notation rt := (rterm K).
 Notation nf := (nf K).
@@ -111,6 +113,12 @@ Definition is_named (l : leaf) : bool :=
 Definition remove_heaviside (fs : list leaf) : list leaf := filter (fun l => negb (is_ut l)) fs.
 Definition undef_sig (v : nat) (a b : K) : option signal :=
   if isr a && isr b && pos a && (neg b || feqb b 0) then Some (SDelay (- b / a) (STScale a (SFn v))) else None.
+(* sifting: delta(a t + b) v(a' t + b') = v(a' t0 + b') delta(t - t0) / a,  t0 = -b/a  (nothing when t0 < 0) *)
+Definition sift_sig (v : nat) (a' b' a b : K) : option signal :=
+  if isr a && isr b && pos a then
+    let t0 := - b / a in
+    Some (if neg t0 then SZero else SScale (Fv v (a' * t0 + b') / a) (SDelay t0 (SImp O)))
+  else None.
 Definition den_named (fs : list leaf) : option signal :=
   match fs with
   | [LUndef v a b] => undef_sig v a b
@@ -119,6 +127,8 @@ Definition den_named (fs : list leaf) : option signal :=
   | [LDeriv v k] => Some (SDerivN k (SFn v))
   | [LInteg v] => Some (SInteg (SFn v))
   | [LConv v h] => Some (SConv (SFn v) (SFn h))
+  | [LUndef v a' b'; LDelta O a b] => sift_sig v a' b' a b
+  | [LDelta O a b; LUndef v a' b'] => sift_sig v a' b' a b
   | _ => None
   end.
 (* ------------------------------------------------------------------ the closed forms (filled by LaplaceGen.v) *)
@@ -135,7 +145,8 @@ Record forms := Forms {
   f_func : nat -> K -> K -> K -> K;                       (* v scale shift s *)
   f_deriv : nat -> nat -> bool -> K -> K;                 (* v order zic s *)
   f_integ : K -> K -> K -> K;                             (* const2 X s *)
-  f_conv : K -> K -> K -> K                               (* const2 F1 F2 *)
+  f_conv : K -> K -> K -> K;                              (* const2 F1 F2 *)
+  f_sift : K -> K -> K -> K -> K -> K                     (* const X scale shift s  (X = v at t0 = -shift/scale) *)
 }.
 Variable F : forms.
 Variable orc : nf -> option (K -> K).      (* sympy.integrate on the meaning of the expression *)
@@ -175,7 +186,19 @@ Definition function_model (l : leaf) : option (K -> K) :=
 Definition is_function (l : leaf) : bool := match l with LPowT _ | LDeriv _ _ | LInteg _ | LConv _ _ => false | _ => true end.
 
 (* ---- AppliedUndef branch ------------------------------------------------------------------- *)
+Definition sift_shape (fs : list leaf) : option (nat * K * K * K * K) :=
+  match fs with
+  | [LUndef v a' b'; LDelta _ a b] => Some (v, a', b', a, b)
+  | [LDelta _ a b; LUndef v a' b'] => Some (v, a', b', a, b)
+  | _ => None
+  end.
 Definition undef_model (zic : bool) (fs : list leaf) : option (K -> K) * list ev :=
+  match sift_shape fs with
+  | Some (v, a', b', a, b) =>
+      (* Mul(DiracDelta(..), v(..)): sifting; the order of the derivative of the delta is NOT looked at *)
+      let t0 := - b / a in
+      if neg t0 then (Some (fun _ => 0), []) else (Some (f_sift F 1 (Fv v (a' * t0 + b')) a b), [])
+  | None =>
   if existsb (fun l => match l with LDeriv _ _ => true | _ => false end) fs then
     match fs with
     | [LDeriv v k] => (Some (f_deriv F v k zic), [EvDerivUndef])
@@ -186,6 +209,7 @@ Definition undef_model (zic : bool) (fs : list leaf) : option (K -> K) * list ev
   | [LUndef v a b; LExp al be] =>
       if feqb be 0 then (Some (fun s => f_func F v a b (s - al)), [EvFunc]) else (None, [EvError])
   | _ => (None, [EvError])
+  end
   end.
 
 (* ---- sinh / cosh: rewrite(exp) and expand -------------------------------------------------- *)
@@ -233,10 +257,32 @@ Definition expands_ut (l : leaf) : bool :=
   end.
 Definition has_step_or_delta (l : leaf) : bool :=
   match l with LU _ _ | LDelta _ _ _ | LRect _ _ | LTri _ _ | LRamp _ _ | LRstep _ _ => true | _ => false end.
+(* a single function that `function` does not handle is rewritten by expand_functions into Heaviside(a t + b') terms
+   (rect: b' = b +- 1/2; tri: b + 1, b, b - 1; ramp: b; rampstep: b, b - 1); clip_heaviside then replaces those with
+   a > 0 and b' > 0 by 1.  What is left decides between integrate_0 and integrate_0minus. *)
+Definition step_shifts (l : leaf) : list (K * K) :=
+  match l with
+  | LU a b => [(a, b)]
+  | LRect a b => [(a, b + half); (a, b - half)]
+  | LTri a b => [(a, b + 1); (a, b); (a, b - 1)]
+  | LRamp a b => [(a, b)]
+  | LRstep a b => [(a, b); (a, b - 1)]
+  | _ => []
+  end.
+Definition clipped (ab : K * K) : bool := pos (fst ab) && pos (snd ab).
+Definition steps_left (l : leaf) : list (K * K) := filter (fun ab => negb (clipped ab)) (step_shifts l).
+Definition single_tag (l : leaf) : ev :=
+  if existsb (fun ab => feqb (fst ab) 1 && feqb (snd ab) 0) (steps_left l) then EvInt0
+  else match l with
+       | LDelta _ _ _ => EvInt0minus
+       | _ => match steps_left l with [] => EvInt0 | _ => EvInt0minus end
+       end.
 
 Definition oracle_branch (c : K) (fs : list leaf) (single_function : bool) : option (K -> K) * list ev :=
-  let tag := if single_function && existsb expands_ut fs then EvInt0
-             else if existsb has_step_or_delta fs then EvInt0minus else EvInt0 in
+  let tag := match single_function, fs with
+             | true, [l] => single_tag l
+             | _, _ => if existsb has_step_or_delta fs then EvInt0minus else EvInt0
+             end in
   match prod_nf fs with
   | Some N => (vscale c (orc N), [tag])
   | None => (None, [tag; EvError])
@@ -471,6 +517,7 @@ Definition spec_rstep (a s : K) : K := a * (1 - ex (- (s / a))) / sq s.
 Definition spec_func (v : nat) (a b s : K) : K := ex (s * b / a) * Fn v (s / a) / a.
 Definition Icz (zic : bool) (v m : nat) : K := if zic then 0 else Ic v m.
 Definition spec_deriv (v k : nat) (zic : bool) (s : K) : K := fpow s k * Fn v s - ic_sum K (Icz zic) v k s.
+Definition spec_sift (c X a b s : K) : K := c * X * ex (- (- b / a * s)) / a.
 
 (* the specification's own closed forms: the model run with them is the SPECIFICATION of the transformer (used
    by the correspondence evaluation as an exact oracle independent of the translated formulas) *)
@@ -479,7 +526,7 @@ Definition spec_forms : forms :=
         (fun iscos hasu al be w p zeta s => spec_sincos iscos hasu al be w p zeta s)
         (fun n m => Nat.leb n (S m))
         spec_rect spec_tri spec_ramp spec_rstep spec_func spec_deriv
-        (fun c X s => c * X / s) (fun c A B => c * A * B).
+        (fun c X s => c * X / s) (fun c A B => c * A * B) spec_sift.
 
 (* what the generated closed forms have to satisfy (proved in props/C09_entry_*.v for the current source) *)
 Record forms_ok : Prop := FormsOk {
@@ -495,7 +542,8 @@ Record forms_ok : Prop := FormsOk {
   func_ok : forall v a b s, pos a = true -> f_func F v a b s = spec_func v a b s;
   deriv_ok : forall v k zic s, f_deriv F v k zic s = spec_deriv v k zic s;
   integ_ok : forall c X s, s <> 0 -> f_integ F c X s = c * X / s;
-  conv_ok : forall c A B, f_conv F c A B = c * A * B
+  conv_ok : forall c A B, f_conv F c A B = c * A * B;
+  sift_ok : forall c X a b s, pos a = true -> f_sift F c X a b s = spec_sift c X a b s
 }.
 
 
@@ -856,6 +904,19 @@ Proof. destruct HF. intros Hn Hu Hd. unfold den1 in Hd. rewrite Hn in Hd.
   destruct (den_named fs) as [y|] eqn:Ey; [|discriminate]. inversion Hd; subst x. clear Hd.
   apply (LPair_dom K ex isr neg Fn (Icz zic) _ (fun _ => True)); [intros; exact I|].
   apply LP_scale. unfold undef_model in Hu.
+  destruct (sift_shape fs) as [[[[[v a'] b'] a] b]|] eqn:Es.
+  { assert (Hden : sift_sig v a' b' a b = Some y).
+    { unfold sift_shape in Es. destruct fs as [|l0 [|l1 [|l2 fs]]]; try discriminate; destruct l0; try discriminate;
+        destruct l1; try discriminate; inversion Es; subst; cbn [den_named] in Ey;
+        (destruct k; [exact Ey | discriminate]) || exact Ey. }
+    clear Ey Es. unfold sift_sig in Hden.
+    destruct (isr a) eqn:Ra; [|discriminate]. destruct (isr b) eqn:Rb; [|discriminate]. destruct (pos a) eqn:Ha; [|discriminate].
+    cbn [andb] in Hden. pose proof (pos_nz a Ha) as Hz. destruct (neg (- b / a)) eqn:Hng.
+    - injection Hden as <-. injection Hu as <- _. apply LP_zero.
+    - injection Hden as <-. injection Hu as <- _.
+      apply (LPair_eq K ex isr neg Fn (Icz zic) _ _ (fun s => Fv v (a' * (- b / a) + b') / a * (ex (- (- b / a * s)) * fpow s 0))).
+      + intros s _. rewrite sift_ok0 by exact Ha. unfold spec_sift. cbn [fpow]. field. exact Hz.
+      + apply LP_scale. apply LP_delay; [exact (isr_T a b Ra Rb) | exact Hng | apply LP_imp]. }
   destruct (existsb (fun l => match l with LDeriv _ _ => true | _ => false end) fs) eqn:Ed.
   - (* LDeriv *) destruct fs as [|l0 [|l1 fs]]; try discriminate; destruct l0; try discriminate.
     inversion Hu; subst X. cbn [den_named] in Ey. inversion Ey; subst y.
